@@ -110,8 +110,11 @@ def cmd_run(a):
         for p in props:
             for seed in a.seeds.split(","):
                 t0 = time.time()
-                r = subprocess.run([os.path.join(VERIF, "check"), p, "--tier", a.tier, "--seed", seed],
-                                   capture_output=True, text=True, env=env)
+                try:
+                    r = subprocess.run([os.path.join(VERIF, "check"), p, "--tier", a.tier, "--seed", seed],
+                                       capture_output=True, text=True, env=env, timeout=2400)
+                except subprocess.TimeoutExpired:
+                    r = subprocess.CompletedProcess([], -9, stdout="TIMEOUT: check did not finish in 2400 s\n", stderr="")
                 detail = [l.strip() for l in r.stdout.splitlines() if l.startswith("  site=")][:3]
                 res["checks"][f"{p}@{seed}"] = {"exit": r.returncode, "detail": detail, "wall": round(time.time() - t0, 1)}
                 if r.returncode == 2:
